@@ -402,6 +402,7 @@ func (g *SQLGen) Join6(tables []*model.Table) *proto.NStmt {
 // nullable column for COUNT(col).
 func (g *SQLGen) AggTable(name string, rows int) (*proto.Stmt, [][]proto.Val) {
 	defs := []proto.ColDef{
+		{Name: "n0", Type: "int"}, // nullable, first column of the table
 		{Name: "g1", Type: "varchar", Len: 10}, {Name: "g2", Type: "varchar", Len: 10},
 		{Name: "gi", Type: "int"}, {Name: "gj", Type: "int"}, {Name: "gb", Type: "boolean"},
 		{Name: "v", Type: "int"}, {Name: "w", Type: "bigint"}, {Name: "nn", Type: "int"},
@@ -417,7 +418,12 @@ func (g *SQLGen) AggTable(name string, rows int) (*proto.Stmt, [][]proto.Val) {
 		if r.Chance(1, 3) {
 			nn = proto.Null()
 		}
+		n0 := proto.Int(int64(r.Intn(4)))
+		if r.Chance(1, 3) {
+			n0 = proto.Null()
+		}
 		out = append(out, []proto.Val{
+			n0,
 			proto.Str([]string{"1", "12", "", "true", "1 2"}[r.Intn(5)]),
 			proto.Str([]string{"23", "3", "", "1", "2"}[r.Intn(5)]),
 			proto.Int([]int64{1, 12}[r.Intn(2)]), proto.Int([]int64{23, 3}[r.Intn(2)]), proto.Bool(r.Bool()),
@@ -438,9 +444,13 @@ func (g *SQLGen) Agg7(table string, join string) *proto.NStmt {
 		q = "t"
 	}
 	if join != "" {
-		n.From = append(n.From, proto.NTable{Name: join, Alias: "d", Join: []string{"inner", "left"}[r.Intn(2)],
+		n.From = append(n.From, proto.NTable{Name: join, Alias: "d", Join: []string{"inner", "left", "right"}[r.Intn(3)],
 			On: &proto.Cond{Op: "=", LHS: &proto.Operand{Qual: q, Col: "gi"}, RHS: &proto.Operand{Qual: "d", Col: "k"}}})
 	}
+	// a RIGHT JOIN pads the aggregated table's side with NULLs: then only
+	// COUNT is asked for (AVG over NULL and comparisons with NULL are outside
+	// the property)
+	padded := len(n.From) > 1 && n.From[1].Join == "right"
 	gcols := []string{"g1", "g2", "gi", "gj", "gb"}
 	ng := r.Intn(4) // 0..3 grouping columns
 	perm := r.Intn(120)
@@ -491,11 +501,21 @@ func (g *SQLGen) Agg7(table string, join string) *proto.NStmt {
 		case 0, 1:
 			aggs = append(aggs, proto.NItem{Kind: "count"})
 		case 2:
-			aggs = append(aggs, proto.NItem{Kind: "count", Arg: &proto.Operand{Col: "nn"}})
+			// COUNT(col) over a nullable column (first or last column of the
+			// table) or over any other column
+			col := []string{"nn", "n0", "n0", "g1", "gi", "gb", "v"}[r.Intn(7)]
+			arg := &proto.Operand{Col: col}
+			if r.Chance(1, 3) {
+				arg.Qual = q
+			}
+			aggs = append(aggs, proto.NItem{Kind: "count", Arg: arg})
 		case 3:
 			aggs = append(aggs, proto.NItem{Kind: "avg", Arg: &proto.Operand{Col: "v"}})
 		default:
 			aggs = append(aggs, proto.NItem{Kind: "avg", Arg: &proto.Operand{Col: "w"}})
+		}
+		if padded && aggs[len(aggs)-1].Kind == "avg" {
+			aggs[len(aggs)-1] = proto.NItem{Kind: "count", Arg: &proto.Operand{Col: []string{"n0", "v", "g1"}[r.Intn(3)]}}
 		}
 		if r.Chance(1, 4) {
 			aggs[len(aggs)-1].Alias = fmt.Sprintf("ag%d", i)
@@ -527,7 +547,7 @@ func (g *SQLGen) Agg7(table string, join string) *proto.NStmt {
 	for _, i := range idx {
 		n.GroupBy = append(n.GroupBy, gitems[i].ref)
 	}
-	if r.Chance(1, 3) {
+	if !padded && r.Chance(1, 3) {
 		fields := []FieldInfo{{Qual: q, Name: "gi", Type: "int"}, {Qual: q, Name: "v", Type: "int"}, {Qual: q, Name: "g1", Type: "varchar"}, {Qual: q, Name: "gb", Type: "boolean"}}
 		saveLit := g.LitFor
 		_ = saveLit
